@@ -45,6 +45,13 @@ CLAIMED["C02"] = ("Unbounded proof of the soundness direction for every certific
   "Trusted: signature primitives abstracted as an uninterpreted predicate sigvalid behind the crypto.Base interface contract (Verify/BatchVerify soundness), the per-signature checks of ECDSA/EdDSA run in goroutines and are not modelled; bytes-to-sign functions (Block/View/TimeoutMsg.ToBytes) trusted as functions of the object; Multi refinement axioms; BLS not under contract. Not decided: completeness (honestly assembled certificates verify), 'highest-view' among the attested QCs, membership of signers in the configuration. Known finding: VerifyAggregateQC nil signature panic.",
   "contract-based deductive verification: WP over go/ssa + SMT (govc)", "DESIGN.md 3 C02")
 
+CLAIMED["C03"] = ("Unbounded proof of the voting discipline of a replica: Voter.Verify accepts a proposal only if its view is above the last voted/stopped view, its certificate is a valid QC (C02), it comes from the leader of its view, and its block directly extends the certified block (parent == certified hash, view above the certificate's); Vote signs only above the mark and raises the mark to the block's view; StopVoting only raises the mark; OnValidPropose and Proposer.Propose vote at most for the proposal's view; a program-wide census (SSA scan of the whole module) shows that partial certificates are created only in Voter.Vote, that Vote is called only from OnValidPropose and Propose, and that the mark is written only by Vote, StopVoting and the constructor. Hence at most one vote per view, in strictly increasing view order, never at or below a stopped view. One genuine defect found by these obligations is fixed in /repo (missing parent/certificate link check).",
+  "Trusted: rule sets, leader rotation, aggregators, disseminators, committer and network are unknown code behind interface contracts that may change anything except the fields of the listed protocol objects (preserve set @std) and keep block stores intact; event-loop serialisation of handlers; NewPartialCert, TryCommit, CreateProposal trusted contracts (frame only). Not decided: that a timeout message leaves the replica only after StopVoting (OnLocalTimeout not yet under contract).",
+  "contract-based deductive verification: WP over go/ssa + SMT (govc), SSA census", "DESIGN.md 3 C03")
+CLAIMED["C07"] = ("Unbounded proof that the view state only moves forward and only on evidence: UpdateHighQC replaces the high QC only by a verified QC of a higher view (monotone, using the view binding of verified QCs), UpdateHighTC and UpdateCommittedBlock are monotone, NextView steps by one; both VerifySyncInfo rules return a view only together with a certificate for exactly that view that the authority accepted (C02 states what acceptance implies); advanceView changes the view by at most one step, only if VerifySyncInfo accepted evidence for a view at least the current one, never lowers the high QC view, and signals the change with a ViewChangeEvent for the new view as its first emitted event (ghost trace), and emits nothing when the view does not change. Two genuine defects found here are fixed in /repo (forged genesis QC advanced the view; see also C02 view binding).",
+  "Trusted: interface contracts for unknown code (timeout rules behind the interface, leader rotation, view duration, proposer frame, network); EventLoop.AddEvent trusted contract (emits the event; UnsafeRunInAddEvent handlers do not touch protocol state); SHA-256 collision resistance (hash determines view) for UpdateHighQC; acceptance history facts (qcAccepted etc.) are names for 'Verify returned nil', their meaning is C02's. Not decided: committed view monotone through commitInner (needs the committer under contract), OnRemoteTimeout/OnNewView handler wrappers.",
+  "contract-based deductive verification: WP over go/ssa + SMT (govc), ghost event trace", "DESIGN.md 3 C07")
+
 NA = {
  "C01": "cross-replica agreement over all schedules and Byzantine behaviours is a protocol-level inductive invariant over a distributed history; no contract on a function or object of one process can state it (DESIGN.md 3 C01)",
  "C05": "liveness / bounded progress under eventual synchrony is a property of whole executions of all replicas; partial-correctness contracts cannot state it (DESIGN.md 3 C05)",
